@@ -48,9 +48,13 @@ func runFixRules(c *Ctx, spec *PropSpec) {
 		c19StoredClusterManagerKeepsScalars(c)
 	case "C14":
 		c14LocalReplyCancelsPendingRerun(c)
+		c14PassOfAnotherPhaseStartsAtFirstFilter(c)
+		c14CursorNotWrittenAfterHandler(c)
 	case "C10":
 		c10DecodeErrorDrivesTheStream(c)
 		c10NoStreamCallbackUnderStreamTableLock(c)
+		c10HalfSentOnewayIsReset(c)
+		c10StreamBornUnderTheCloseLock(c)
 	case "C03":
 		c03SentFlagImpliesDeadline(c)
 		c03RetriesDoNotConsumePhaseRounds(c)
@@ -58,24 +62,41 @@ func runFixRules(c *Ctx, spec *PropSpec) {
 		c16TimeoutAttributedToItsCheck(c)
 	case "C13":
 		c13ProviderIndexPerContext(c)
+		c13UnusableClusterTLSFailsClosed(c)
+		c13MatchedNamesLowerCased(c)
+		c13PlaintextOnlyWithoutTLSOrWithInspector(c)
 	case "C20":
 		c20RawSectionsRedacted(c)
+		c20RawStaticResourcesRedacted(c)
+		c20EnvoyDumpHasARedactor(c)
 	case "C01":
 		c01EmptyQueryIsAQuery(c)
+		c01HeadDecidedByTheRequestSent(c)
+		c01HeadResponseKeepsContentLength(c)
+		c01ThriftOnewayIsARequest(c)
 	case "C02":
 		c02LeftoverUpstreamBytesRetireConnection(c)
 	case "C11":
 		c11NoZeroPrefixedHandOverBuffer(c)
 		c11HostlessListenerInheritsWildcard(c)
+		c11InFlightTrailersAfterGoAway(c)
+		c11HandedOverUnixListenerKeepsItsPath(c)
+		c11PoolShutdownOutsideItsLock(c)
+		c11DrainCounterNotExcludable(c)
 	case "C18":
 		c18EmptyHeaderFragmentAccepted(c)
 		c18PeerHeaderTableSizeApplied(c)
 	case "C08":
 		c08StreamErrorConsumesItsFrame(c)
+		c08ServerCallbacksOnlyWhereTheyExist(c)
+		c08TarsImpossibleLengthFails(c)
 	case "C17":
 		c17ConfiguredRetriesUsedAsIs(c)
 		c17EveryRuleFinalizesWithTheBase(c)
 		c17RewriteAgreesWithMatchOnCase(c)
+		c17RewritePatternStoredWheneverApplied(c)
+	case "C04":
+		c04FastIndexKeepsFirst(c)
 	}
 }
 
@@ -1583,4 +1604,981 @@ func c08StreamErrorConsumesItsFrame(c *Ctx) {
 	if n == 0 {
 		c.Fail(rule, funcKey(fn)+":stream-error-consumed", fn.Pos(), "no error passed on from a parser call found in MFramer.ReadFrame")
 	}
+}
+
+// =====================================================================================================================
+// Round 11, second wave (repairs of the side findings that had only been read, DESIGN.md §5 rows 58 ff.)
+
+// statusEdgeOK: CFG edges consistent with "the filter status equals v" (comparisons of a value with string constants).
+func statusEdgeOK(v string) func(from, to *ssa.BasicBlock) bool {
+	return func(from, to *ssa.BasicBlock) bool {
+		ifi, ok := from.Instrs[len(from.Instrs)-1].(*ssa.If)
+		if !ok || len(from.Succs) != 2 || from.Succs[0] == from.Succs[1] {
+			return true
+		}
+		for _, g := range normGuard(Guard{Cond: ifi.Cond, True: to == from.Succs[0], If: ifi}) {
+			bo, ok := g.Cond.(*ssa.BinOp)
+			if !ok || (bo.Op != token.EQL && bo.Op != token.NEQ) {
+				continue
+			}
+			sv, ok := constStringVal(bo.Y)
+			if !ok {
+				continue
+			}
+			if ((bo.Op == token.EQL) == g.True) != (sv == v) {
+				return false
+			}
+		}
+		return true
+	}
+}
+
+// C04.R15 (S11): the key/value index is a shortcut of the first-match scan: an entry of the index is written only where the
+// lookup of that key/value missed, so the first route of a key/value stays.
+func c04FastIndexKeepsFirst(c *Ctx) {
+	const rule = "C04.R15"
+	c.Rule(rule, "the key/value route index keeps the first route of a key/value (it answers like the first-match scan)", 1)
+	fn := c.M("pkg/router", "VirtualHostImpl", "addRouteBase")
+	if fn == nil {
+		c.Unresolved(rule, "VirtualHostImpl.addRouteBase")
+		return
+	}
+	n := 0
+	for _, in := range instrsWhere(fn, func(in ssa.Instruction) bool { _, ok := in.(*ssa.MapUpdate); return ok }) {
+		mu := in.(*ssa.MapUpdate)
+		// the inner map: values are routes
+		mt, ok := mu.Map.Type().Underlying().(*types.Map)
+		if !ok {
+			continue
+		}
+		if nt, isNamed := mt.Elem().(*types.Named); !isNamed || nt.Obj().Name() != "Route" {
+			continue
+		}
+		n++
+		miss := false
+		for _, g := range guardsAt(mu.Block()) {
+			ex, ok := g.Cond.(*ssa.Extract)
+			if !ok || ex.Index != 1 || g.True {
+				continue
+			}
+			if lk, ok := ex.Tuple.(*ssa.Lookup); ok && lk.CommaOk && sameThroughSpill(lk.X, mu.Map) {
+				miss = true
+			}
+		}
+		c.Check(rule, funcKey(fn)+":index-keeps-first", mu.Pos(), miss,
+			"the index entry is written only where the lookup of that key/value missed",
+			"addRouteBase overwrites the index entry of a key/value with every later route of the same key/value: MatchRouteFromHeaderKV then answers with the last such route while the first-match scan of MatchRoute answers with the first one - two lookups of one configuration disagree")
+	}
+	if n == 0 {
+		c.Fail(rule, funcKey(fn)+":index-keeps-first", fn.Pos(), "no insertion into the key/value index found")
+	}
+}
+
+// C14.R10 (S21): the chain's cursor is parked on a filter only so that the SAME phase can be resumed there. A pass for a
+// phase other than the one the parked filter belongs to starts at the first filter: before the loop the cursor is reset
+// under a comparison of the parked filter's phase with the phase argument.
+func c14PassOfAnotherPhaseStartsAtFirstFilter(c *Ctx) {
+	const rule = "C14.R10"
+	c.Rule(rule, "a receiver filter pass of a phase other than the parked filter's starts at the first filter", 1)
+	fn := c.M("pkg/streamfilter", "DefaultStreamFilterChainImpl", "RunReceiverFilter")
+	if fn == nil {
+		c.Unresolved(rule, "DefaultStreamFilterChainImpl.RunReceiverFilter")
+		return
+	}
+	inv := callsIn(fn, false, func(cc *ssa.CallCommon) bool { return cc.IsInvoke() && cc.Method.Name() == "OnReceive" })
+	if len(inv) != 1 {
+		c.Fail(rule, funcKey(fn)+":other-phase-restarts", fn.Pos(), "filter invocation not found")
+		return
+	}
+	var phaseParam ssa.Value
+	for _, p := range fn.Params {
+		if strings.HasSuffix(typeName(p.Type()), "ReceiverFilterPhase") {
+			phaseParam = p
+		}
+	}
+	ok := false
+	for _, st := range storesToField(fn, ".DefaultStreamFilterChainImpl", "receiverFiltersIndex", false) {
+		if !isZero(st.Val) || inLoop(st.Block()) {
+			continue
+		}
+		// before the first invocation, under `receiverFiltersPhase[cursor] != phase`
+		if existsPath(fn, st, func(in ssa.Instruction) bool { return in == inv[0].Instr }, nil) == nil {
+			continue
+		}
+		for _, g := range guardsAt(st.Block()) {
+			bo, isB := g.Cond.(*ssa.BinOp)
+			if !isB || !((bo.Op == token.NEQ && g.True) || (bo.Op == token.EQL && !g.True)) {
+				continue
+			}
+			for _, pair := range [][2]ssa.Value{{bo.X, bo.Y}, {bo.Y, bo.X}} {
+				if pair[1] != phaseParam {
+					continue
+				}
+				if u, isU := pair[0].(*ssa.UnOp); isU {
+					if ia, isIA := u.X.(*ssa.IndexAddr); isIA {
+						if _, f, _, okf := loadedField(ia.X); okf && f == "receiverFiltersPhase" {
+							ok = true
+						}
+					}
+				}
+			}
+		}
+	}
+	c.Check(rule, funcKey(fn)+":other-phase-restarts", fn.Pos(), ok,
+		"before the pass the cursor is reset when the parked filter belongs to another phase",
+		"RunReceiverFilter starts every pass at the parked cursor: after a filter asked for a route re-match or host re-choose in a phase in which that is not honoured, the next phase's pass skips the filters before it - a filter that would deny the request in the later phase never runs and the request is forwarded")
+}
+
+// C14.R11 (S22): for Stop and termination the status handler may end the stream, which gives the chain back to the pool; the
+// chain's cursor must not be written after the handler returned.
+func c14CursorNotWrittenAfterHandler(c *Ctx) {
+	const rule = "C14.R11"
+	c.Rule(rule, "the chain cursor is not written after the status handler of a stopped or terminated pass returned", 2)
+	for _, spec := range [][2]string{{"RunReceiverFilter", "receiverFiltersIndex"}, {"RunSenderFilter", "senderFiltersIndex"}} {
+		fn := c.M("pkg/streamfilter", "DefaultStreamFilterChainImpl", spec[0])
+		if fn == nil {
+			c.Unresolved(rule, "DefaultStreamFilterChainImpl."+spec[0])
+			continue
+		}
+		// the handler: a dynamic call of a function-typed parameter
+		var handler ssa.Instruction
+		forEachInstr(fn, false, func(_ *ssa.Function, in ssa.Instruction) {
+			if call, ok := in.(*ssa.Call); ok && !call.Common().IsInvoke() && call.Common().StaticCallee() == nil {
+				if _, isP := call.Common().Value.(*ssa.Parameter); isP {
+					handler = in
+				}
+			}
+		})
+		if handler == nil {
+			c.Fail(rule, funcKey(fn)+":no-write-after-handler", fn.Pos(), "status handler call not found")
+			continue
+		}
+		isWrite := func(in ssa.Instruction) bool {
+			st, ok := in.(*ssa.Store)
+			if !ok {
+				return false
+			}
+			_, f, _, okf := fieldAddrInfo(st.Addr)
+			return okf && f == spec[1]
+		}
+		var bad ssa.Instruction
+		for _, v := range []string{"Stop", "termination"} {
+			if w := existsPathEdges(fn, handler, isWrite, isReturn, statusEdgeOK(v)); w != nil {
+				bad = w
+			}
+		}
+		at := ""
+		if bad != nil {
+			at = c.pos(nearestPos(bad))
+		}
+		c.Check(rule, funcKey(fn)+":no-write-after-handler", nearestPos(handler), bad == nil,
+			"for Stop/termination no store to the cursor is reachable after the status handler",
+			"for a stopped or terminated pass the chain writes its cursor (at "+at+") after the status handler returned; the handler of a terminated stream runs cleanStream, which gives the chain back to the pool, so the cursor of a chain that may already serve another stream is reset - that stream runs filters twice")
+	}
+}
+
+// C17.R18 (S38): the pattern of a regex_rewrite is stored and compiled under the same condition under which it is applied
+// (non-empty): a guard `len(pattern) > k` with k >= 1 drops short patterns silently.
+func c17RewritePatternStoredWheneverApplied(c *Ctx) {
+	const rule = "C17.R18"
+	c.Rule(rule, "a regex_rewrite pattern is stored and compiled whenever it is non-empty", 1)
+	fn := c.F("pkg/router", "NewRouteRuleImplBase")
+	if fn == nil {
+		c.Unresolved(rule, "router.NewRouteRuleImplBase")
+		return
+	}
+	n := 0
+	for _, st := range storesToField(fn, "RouteRuleImplBase", "regexRewrite", false) {
+		n++
+		bad := ""
+		for _, g := range guardsAt(st.Block()) {
+			x, op, k, ok := cmpConst(g)
+			if !ok {
+				continue
+			}
+			lc, isLen := x.(*ssa.Call)
+			if !isLen || methodName(lc.Common()) != "len" {
+				continue
+			}
+			if _, f, _, okf := loadedField(lc.Common().Args[0]); !okf || f != "Regex" {
+				continue
+			}
+			if (op == token.GTR && k >= 1) || (op == token.GEQ && k >= 2) || (op == token.NEQ && k != 0) {
+				bad = fmt.Sprintf("len(pattern) %s %d", op, k)
+			}
+		}
+		c.Check(rule, funcKey(fn)+":short-pattern-kept", st.Pos(), bad == "",
+			"the pattern is stored for every non-empty regex",
+			"the regex_rewrite pattern is stored and compiled only when "+bad+", while finalizePathHeader applies any non-empty pattern: a one-character pattern is silently not applied and an invalid one is accepted without an error")
+	}
+	if n == 0 {
+		c.Fail(rule, funcKey(fn)+":short-pattern-kept", fn.Pos(), "no store into RouteRuleImplBase.regexRewrite found")
+	}
+}
+
+// C13.R16 (S49): when the tls config of a cluster cannot be turned into a context manager the cluster must not be left
+// with the nil manager (which means "no tls": the hosts connect in plaintext): on the error edge of
+// NewTLSClientContextManager the value stored into clusterInfo.tlsMng is not that call's (nil) result.
+func c13UnusableClusterTLSFailsClosed(c *Ctx) {
+	const rule = "C13.R16"
+	c.Rule(rule, "a cluster whose tls config cannot be used is not left with a nil (plaintext) tls manager", 1)
+	fn := c.F("pkg/upstream/cluster", "NewClusterInfo")
+	if fn == nil {
+		c.Unresolved(rule, "cluster.NewClusterInfo")
+		return
+	}
+	mk := callsIn(fn, false, calledAs("NewTLSClientContextManager"))
+	if len(mk) != 1 {
+		c.Fail(rule, funcKey(fn)+":fails-closed", fn.Pos(), fmt.Sprintf("expected one NewTLSClientContextManager call, found %d", len(mk)))
+		return
+	}
+	call := mk[0].Instr.(*ssa.Call)
+	errNil := func(gs []Guard) bool {
+		for _, g := range gs {
+			b, ok := g.Cond.(*ssa.BinOp)
+			if !ok {
+				continue
+			}
+			for _, pair := range [][2]ssa.Value{{b.X, b.Y}, {b.Y, b.X}} {
+				ex, isEx := pair[0].(*ssa.Extract)
+				if isEx && ex.Tuple == ssa.Value(call) && ex.Index == 1 && isNilConst(pair[1]) {
+					if (b.Op == token.EQL && g.True) || (b.Op == token.NEQ && !g.True) {
+						return true
+					}
+				}
+			}
+		}
+		return false
+	}
+	isMgr := func(v ssa.Value) bool {
+		ex, ok := v.(*ssa.Extract)
+		return ok && ex.Tuple == ssa.Value(call) && ex.Index == 0
+	}
+	n := 0
+	for _, st := range storesToField(fn, "clusterInfo", "tlsMng", false) {
+		n++
+		ok := true
+		switch v := st.Val.(type) {
+		case *ssa.Phi:
+			for i, e := range v.Edges {
+				if isMgr(e) && !errNil(edgeGuards(v.Block().Preds[i], v.Block())) {
+					ok = false
+				}
+			}
+		default:
+			if isMgr(v) && !errNil(guardsAt(st.Block())) {
+				ok = false
+			}
+		}
+		c.Check(rule, funcKey(fn)+":fails-closed", st.Pos(), ok,
+			"the manager returned by NewTLSClientContextManager is stored only where its error is nil",
+			"NewClusterInfo stores the (nil) manager of a failed NewTLSClientContextManager: a cluster whose tls config cannot be used (unparsable certificate, unknown cipher suite) reports SupportTLS() == false and connects to its hosts in plaintext although TLS is configured")
+	}
+	if n == 0 {
+		c.Fail(rule, funcKey(fn)+":fails-closed", fn.Pos(), "no store into clusterInfo.tlsMng found")
+	}
+}
+
+// C13.R17 (S51): MatchedServerName lower-cases the SNI; the names a context is found under (configured server_name,
+// certificate CN and DNS SANs) must be stored lower-cased too.
+func c13MatchedNamesLowerCased(c *Ctx) {
+	const rule = "C13.R17"
+	c.Rule(rule, "the names a tls context is matched by are stored lower-cased, like the SNI they are compared with", 3)
+	pkg := "pkg/mtls"
+	fn := c.M(pkg, "tlsContext", "buildMatch")
+	if fn == nil {
+		c.Unresolved(rule, "tlsContext.buildMatch")
+		return
+	}
+	// serverName is lower-cased where it is stored
+	snLower := true
+	nStores := 0
+	for _, f := range c.PkgFuncs(pkg) {
+		for _, st := range storesToField(f, "tlsContext", "serverName", true) {
+			nStores++
+			if !fromToLower(st.Val, 0) {
+				snLower = false
+			}
+		}
+	}
+	origin := func(v ssa.Value) string {
+		seen := map[ssa.Value]bool{}
+		var walk func(v ssa.Value, d int) string
+		walk = func(v ssa.Value, d int) string {
+			if d > 8 || seen[v] {
+				return ""
+			}
+			seen[v] = true
+			if _, f, _, ok := loadedField(v); ok {
+				switch f {
+				case "CommonName", "serverName":
+					return f
+				}
+			}
+			switch x := v.(type) {
+			case *ssa.Call:
+				for _, a := range x.Common().Args {
+					if o := walk(a, d+1); o != "" {
+						return o
+					}
+				}
+			case *ssa.UnOp:
+				if ia, ok := x.X.(*ssa.IndexAddr); ok {
+					if _, f, _, okf := loadedField(ia.X); okf {
+						return f
+					}
+				}
+				return walk(x.X, d+1)
+			case *ssa.Extract:
+				return walk(x.Tuple, d+1)
+			case *ssa.Next:
+				return walk(x.Iter, d+1)
+			case *ssa.Range:
+				if _, f, _, okf := loadedField(x.X); okf {
+					return f
+				}
+			case *ssa.Phi:
+				for _, e := range x.Edges {
+					if o := walk(e, d+1); o != "" {
+						return o
+					}
+				}
+			}
+			return ""
+		}
+		return walk(v, 0)
+	}
+	n := 0
+	ord := ordCounter{}
+	for _, in := range instrsWhere(fn, func(in ssa.Instruction) bool { _, ok := in.(*ssa.MapUpdate); return ok }) {
+		mu := in.(*ssa.MapUpdate)
+		o := origin(mu.Key)
+		switch o {
+		case "CommonName", "DNSNames":
+			n++
+			c.Check(rule, ord.next(fn, "name-lowercased:"+o), mu.Pos(), fromToLower(mu.Key, 0),
+				"the certificate name passes strings.ToLower before it becomes a match key",
+				"a certificate "+o+" is stored as a match key without strings.ToLower while the SNI is lower-cased before the lookup: a context whose certificate carries an upper-case name is never selected by that name")
+		case "serverName":
+			n++
+			c.Check(rule, ord.next(fn, "name-lowercased:"+o), mu.Pos(), fromToLower(mu.Key, 0) || (snLower && nStores > 0),
+				"the configured server_name is lower-cased (where it is stored or where it becomes a match key)",
+				"the configured server_name becomes a match key without strings.ToLower while the SNI is lower-cased before the lookup: a context configured with server_name `Example.COM` is never selected by name")
+		}
+	}
+	if n == 0 {
+		c.Fail(rule, funcKey(fn)+":name-lowercased", fn.Pos(), "no match key built from a certificate name or server_name found")
+	}
+}
+
+// C13.R18 (S48): the server side hands a TCP connection back untouched (plaintext) only when the listener has no provider at
+// all (no tls configured, or fallback) or runs the inspector; a listener that requires tls and whose (sds) contexts are
+// not ready yet must run the handshake, which fails, instead of serving plaintext.
+func c13PlaintextOnlyWithoutTLSOrWithInspector(c *Ctx) {
+	const rule = "C13.R18"
+	c.Rule(rule, "a TCP connection is served in plaintext only by a listener without providers or with the inspector", 1)
+	fn := c.M("pkg/mtls", "serverContextManager", "Conn")
+	if fn == nil {
+		c.Unresolved(rule, "serverContextManager.Conn")
+		return
+	}
+	param := ssa.Value(fn.Params[1])
+	classify := func(cond ssa.Value) (int, bool) {
+		if _, f, _, ok := loadedField(cond); ok && f == "inspector" {
+			return 1, true
+		}
+		if b, ok := cond.(*ssa.BinOp); ok {
+			if lc, ok := b.X.(*ssa.Call); ok && methodName(lc.Common()) == "len" {
+				if _, f, _, okf := loadedField(lc.Common().Args[0]); okf && f == "providers" {
+					if k, isK := constInt(b.Y); isK && k == 0 {
+						switch b.Op {
+						case token.EQL, token.LEQ:
+							return 2, true
+						case token.NEQ, token.GTR:
+							return 2, false
+						}
+					}
+				}
+			}
+		}
+		return 0, false
+	}
+	n := 0
+	var badAt token.Pos
+	bad := feasibleState(fn, classify, func(b *ssa.BasicBlock, a1, a2 int8) bool {
+		ret, ok := b.Instrs[len(b.Instrs)-1].(*ssa.Return)
+		if !ok || len(ret.Results) != 2 || ret.Results[0] != param {
+			return false
+		}
+		// the non-TCP passthrough (TLS is TCP only on both sides) is by design
+		for _, g := range guardsAt(b) {
+			if ex, ok := g.Cond.(*ssa.Extract); ok && ex.Index == 1 && !g.True {
+				if ta, ok := ex.Tuple.(*ssa.TypeAssert); ok && strings.HasSuffix(ta.AssertedType.String(), "net.TCPConn") {
+					return false
+				}
+			}
+		}
+		n++
+		if a1 == 1 || a2 == 1 {
+			return false
+		}
+		badAt = nearestPos(ret)
+		return true
+	})
+	c.Check(rule, funcKey(fn)+":plaintext-only-by-choice", fn.Pos(), !bad && n > 0,
+		"every plaintext hand-back of a TCP connection lies behind `inspector` or `len(providers) == 0`",
+		"serverContextManager.Conn can hand a TCP connection back untouched (at "+c.pos(badAt)+") although the listener has tls providers and no inspector: while the sds secrets of a listener that requires tls have not arrived, plaintext requests are served")
+}
+
+// C11.O16 (S64): after a graceful GOAWAY the HEADERS frames that are ignored are those of streams the connection does not
+// know; the trailers of a request in flight are processed, so that the request can complete.
+func c11InFlightTrailersAfterGoAway(c *Ctx) {
+	const rule = "C11.O16"
+	c.Rule(rule, "after a graceful GOAWAY only HEADERS of unknown streams are ignored (in-flight requests get their trailers)", 1)
+	fn := c.M("pkg/module/http2", "MServerConn", "processHeaders")
+	if fn == nil {
+		c.Unresolved(rule, "MServerConn.processHeaders")
+		return
+	}
+	n := 0
+	for _, in := range instrsWhere(fn, isReturn) {
+		inGoAway, unknown := false, false
+		for _, g := range guardsAt(in.Block()) {
+			if _, f, _, ok := loadedField(g.Cond); ok && f == "inGoAway" && g.True {
+				inGoAway = true
+			}
+			if b, ok := g.Cond.(*ssa.BinOp); ok {
+				for _, pair := range [][2]ssa.Value{{b.X, b.Y}, {b.Y, b.X}} {
+					if call, isC := pair[0].(*ssa.Call); isC && methodName(call.Common()) == "getStream" && isNilConst(pair[1]) {
+						if (b.Op == token.EQL && g.True) || (b.Op == token.NEQ && !g.True) {
+							unknown = true
+						}
+					}
+				}
+			}
+		}
+		if !inGoAway {
+			continue
+		}
+		n++
+		c.Check(rule, funcKey(fn)+":goaway-ignores-unknown-streams-only", nearestPos(in), unknown,
+			"the ignore-after-GOAWAY return is taken only for a stream the connection does not know",
+			"processHeaders ignores every HEADERS frame once a GOAWAY has been sent, also the trailers of a request that is in flight: that request never ends although a graceful GOAWAY lets in-flight requests complete")
+	}
+	if n == 0 {
+		c.Pass(rule, funcKey(fn)+":goaway-ignores-unknown-streams-only", fn.Pos(), "processHeaders has no return that depends on inGoAway alone")
+	}
+}
+
+// C11.O17 (S63): a unix listener whose descriptor is handed to the new process must not unlink its socket path when the old
+// process closes it: every (*net.UnixListener).File() in pkg/network is preceded by SetUnlinkOnClose(false) on that listener.
+func c11HandedOverUnixListenerKeepsItsPath(c *Ctx) {
+	const rule = "C11.O17"
+	c.Rule(rule, "a unix listener that is handed over keeps its socket path when the old process closes it", 1)
+	n := 0
+	ord := ordCounter{}
+	for _, fn := range c.PkgFuncs("pkg/network") {
+		for _, cs := range callsIn(fn, false, func(cc *ssa.CallCommon) bool { return calleeName(cc) == "(*net.UnixListener).File" }) {
+			n++
+			recv := cs.Instr.Common().Args[0]
+			ok := false
+			for _, u := range callsIn(fn, false, func(cc *ssa.CallCommon) bool { return calleeName(cc) == "(*net.UnixListener).SetUnlinkOnClose" }) {
+				args := u.Instr.Common().Args
+				if b, isB := constBool(args[1]); isB && !b && args[0] == recv && instrDominates(u.Instr, cs.Instr) {
+					ok = true
+				}
+			}
+			c.Check(rule, ord.next(fn, "handed-over-path-kept"), cs.Instr.Pos(), ok,
+				"SetUnlinkOnClose(false) precedes the hand-over of the descriptor",
+				"the descriptor of a unix listener is taken for the hand-over without SetUnlinkOnClose(false): when the old process closes its listener Go removes the socket path on which the new process is listening, and new connections fail with ENOENT after the upgrade")
+		}
+	}
+	if n == 0 {
+		c.Fail(rule, "pkg/network:handed-over-path-kept", token.NoPos, "no (*net.UnixListener).File() call found in pkg/network")
+	}
+}
+
+// ---------------------------------------------------------------------------------------------------------------------
+// C10.ONEWAY (S34): cleanStream resets the upstream stream of a request that is not done; a oneway request is done only
+// once it was completely sent, so the reset may not be skipped for every oneway request.
+func c10HalfSentOnewayIsReset(c *Ctx) {
+	const rule = "C10.ONEWAY"
+	c.Rule(rule, "a oneway request that was not completely sent still gets its upstream stream reset when the stream is cleaned", 1)
+	fn := c.M("pkg/proxy", "downStream", "cleanStream")
+	if fn == nil {
+		c.Unresolved(rule, "downStream.cleanStream")
+		return
+	}
+	resets := callsIn(fn, false, calledAs("resetStream"))
+	if len(resets) == 0 {
+		c.Fail(rule, funcKey(fn)+":oneway-reset-unless-sent", fn.Pos(), "no upstreamRequest.resetStream() call in cleanStream")
+		return
+	}
+	for _, cs := range resets {
+		skippedForOneway := false
+		for _, g := range guardsAt(cs.Instr.Block()) {
+			if _, f, _, ok := loadedField(g.Cond); ok && f == "oneway" && !g.True {
+				skippedForOneway = true
+			}
+		}
+		c.Check(rule, funcKey(fn)+":oneway-reset-unless-sent", cs.Instr.Pos(), !skippedForOneway,
+			"the reset is not confined to non-oneway requests",
+			"cleanStream resets the upstream stream only when the request is not oneway: a oneway request that is given up after its headers were appended and before it was completely sent has no response that would end its upstream stream, so the requests breaker slot, the active gauges and the leased connection are never given back")
+	}
+}
+
+// C10.WINDOW (S18, V1, V2): in every xprotocol pool's NewStream the stream is created (which registers it in the
+// connection's stream table, where a close event finds and resets it) and gets the pool client's listener (whose
+// OnDestroyStream gives the breaker slot and the gauges back) inside one critical section of a mutex that the close path
+// takes before the streams are reset; otherwise a close between the two statements destroys the stream with an empty
+// listener list and the increments that follow are never taken back.
+func c10StreamBornUnderTheCloseLock(c *Ctx) {
+	const rule = "C10.WINDOW"
+	c.Rule(rule, "a pooled stream is created and gets its accounting listener inside one critical section shared with the close path", 3)
+	pkg := "pkg/stream/xprotocol"
+	for _, pool := range []string{"poolPingPong", "poolMultiplex", "poolBinding"} {
+		fn := c.M(pkg, pool, "NewStream")
+		if fn == nil {
+			c.Unresolved(rule, pool+".NewStream")
+			continue
+		}
+		binds := callsIn(fn, false, func(cc *ssa.CallCommon) bool { return cc.IsInvoke() && cc.Method.Name() == "AddEventListener" })
+		if len(binds) == 0 {
+			c.Fail(rule, funcKey(fn)+":created-and-bound-under-one-lock", fn.Pos(), "no AddEventListener call found")
+			continue
+		}
+		for _, b := range binds {
+			// the stream it is attached to: GetStream() of the NewStream result
+			var create ssa.Instruction
+			for _, cs := range callsIn(fn, false, func(cc *ssa.CallCommon) bool { return cc.IsInvoke() && cc.Method.Name() == "NewStream" }) {
+				if instrDominates(cs.Instr, b.Instr) {
+					create = cs.Instr
+				}
+			}
+			ok := false
+			held := ""
+			if create != nil {
+				for _, m := range []string{"clientMux", "streamMux"} {
+					if lockHeld(create, m) && lockHeld(b.Instr, m) {
+						// one critical section: no unlock of m between the two
+						if existsPath(fn, create, func(in ssa.Instruction) bool { return in == b.Instr }, func(in ssa.Instruction) bool {
+							ci, isC := in.(*ssa.Call)
+							if !isC || methodName(ci.Common()) != "Unlock" || len(ci.Common().Args) == 0 {
+								return false
+							}
+							_, f, _, okf := fieldAddrInfo(ci.Common().Args[0])
+							return okf && f == m
+						}) != nil {
+							ok, held = true, m
+						}
+					}
+				}
+			}
+			c.Check(rule, funcKey(fn)+":created-and-bound-under-one-lock", b.Instr.Pos(), ok,
+				"codecClient.NewStream and AddEventListener run under one hold of "+held,
+				"the stream is registered in the connection (codecClient.NewStream) and only later, without a lock the close path shares, gets the pool client's listener: a connection close handled in between resets and destroys the stream with an empty listener list, so the requests breaker slot and the active request gauges counted next are never given back")
+		}
+	}
+}
+
+// ---------------------------------------------------------------------------------------------------------------------
+// C01.R14 (S56): whether a response has no body because it answers HEAD is decided from the request that was sent
+// upstream (the stream's own request), not from the downstream HTTP/1 request buffer of the context.
+func c01HeadDecidedByTheRequestSent(c *Ctx) {
+	const rule = "C01.R14"
+	c.Rule(rule, "the HTTP/1 client decides on a bodiless HEAD response from the request it sent upstream", 1)
+	fn := c.M("pkg/stream/http", "clientStreamConnection", "serve")
+	if fn == nil {
+		c.Unresolved(rule, "clientStreamConnection.serve")
+		return
+	}
+	n := 0
+	for _, st := range storesToField(fn, "Response", "SkipBody", false) {
+		n++
+		own, foreign := false, ""
+		for _, g := range guardsAt(st.Block()) {
+			call, ok := g.Cond.(*ssa.Call)
+			if !ok || methodName(call.Common()) != "IsHead" || !g.True {
+				continue
+			}
+			for _, name := range pathNames(call.Common().Args[0]) {
+				switch name {
+				case "request":
+					own = true
+				case "serverRequest":
+					foreign = name
+				}
+			}
+		}
+		c.Check(rule, funcKey(fn)+":head-from-sent-request", st.Pos(), own && foreign == "",
+			"SkipBody is set behind IsHead() of the stream's own request",
+			"the HTTP/1 client sets SkipBody from the downstream HTTP/1 request buffer of the context instead of the request it sent: with a downstream that is not HTTP/1 the buffer is never filled, a HEAD request is not recognised and the client waits for Content-Length bytes a HEAD response does not carry (the request hangs until its timeout); a HEAD rewritten to GET loses the body")
+	}
+	if n == 0 {
+		c.Fail(rule, funcKey(fn)+":head-from-sent-request", fn.Pos(), "no store to Response.SkipBody found in serve")
+	}
+}
+
+// C01.R15 (S57): the Content-Length of a HEAD response is the length GET would return; MStream.WriteHeader overwrites the
+// upstream's value with "0" only where the response is not a HEAD response.
+func c01HeadResponseKeepsContentLength(c *Ctx) {
+	const rule = "C01.R15"
+	c.Rule(rule, "an HTTP/2 HEAD response keeps the Content-Length the upstream gave it", 1)
+	fn := c.M("pkg/module/http2", "MStream", "WriteHeader")
+	if fn == nil {
+		c.Unresolved(rule, "MStream.WriteHeader")
+		return
+	}
+	// isHeadResp := Method == "HEAD"
+	isHead := func(v ssa.Value) bool {
+		bo, ok := v.(*ssa.BinOp)
+		if !ok || bo.Op != token.EQL {
+			return false
+		}
+		s1, ok1 := constStringVal(bo.Y)
+		s2, ok2 := constStringVal(bo.X)
+		return (ok1 && s1 == "HEAD") || (ok2 && s2 == "HEAD")
+	}
+	// the content-length variable: the phi that merges the parsed value with the constant "0"
+	n := 0
+	for _, b := range fn.Blocks {
+		for _, in := range b.Instrs {
+			phi, ok := in.(*ssa.Phi)
+			if !ok {
+				continue
+			}
+			for i, e := range phi.Edges {
+				if sv, isK := constStringVal(e); !isK || sv != "0" {
+					continue
+				}
+				n++
+				notHead := false
+				for _, g := range edgeGuards(b.Preds[i], b) {
+					if isHead(g.Cond) && !g.True {
+						notHead = true
+					}
+				}
+				c.Check(rule, funcKey(fn)+":zero-only-for-non-head", phi.Pos(), notHead,
+					"the content length is forced to 0 only where the request method is not HEAD",
+					"MStream.WriteHeader replaces the Content-Length of a HEAD response with 0 (and invents content-length: 0 when the upstream sent none): the value of a HEAD response is the length GET would return and must be forwarded as the upstream gave it")
+			}
+		}
+	}
+	if n == 0 {
+		c.Pass(rule, funcKey(fn)+":zero-only-for-non-head", fn.Pos(), "WriteHeader never forces the content length to 0")
+	}
+}
+
+// C01.R16 (S58): a thrift ONEWAY message (type 4) is a call: the decoder classifies it as a request and the frame reports a
+// oneway stream type, so that the proxy forwards it (and waits for no reply).
+func c01ThriftOnewayIsARequest(c *Ctx) {
+	const rule = "C01.R16"
+	c.Rule(rule, "a dubbothrift ONEWAY message is decoded as a (oneway) request and forwarded", 2)
+	pkg := "pkg/protocol/xprotocol/dubbothrift"
+	dec := c.F(pkg, "decodeMessage")
+	if dec == nil {
+		c.Unresolved(rule, "dubbothrift.decodeMessage")
+		return
+	}
+	const oneway = 4 // thrift.ONEWAY
+	reqDir, ok := pkgLocalConst(dec, "EventRequest")
+	if !ok {
+		c.Unresolved(rule, "dubbothrift.EventRequest")
+		return
+	}
+	// stores of EventRequest into Frame.Direction: reachable for messageType == ONEWAY?
+	n := 0
+	for _, st := range storesToField(dec, "Header", "Direction", false) {
+		if k, isK := constInt(st.Val); !isK || k != reqDir {
+			continue
+		}
+		n++
+		// walk edges consistent with "message type == 4"
+		edgeOK := func(from, to *ssa.BasicBlock) bool {
+			ifi, isIf := from.Instrs[len(from.Instrs)-1].(*ssa.If)
+			if !isIf || len(from.Succs) != 2 {
+				return true
+			}
+			for _, g := range normGuard(Guard{Cond: ifi.Cond, True: to == from.Succs[0], If: ifi}) {
+				_, op, k, okc := cmpConst(g)
+				if !okc {
+					continue
+				}
+				bo := g.Cond.(*ssa.BinOp)
+				if !strings.Contains(bo.X.Type().String(), "TMessageType") && !strings.Contains(bo.Y.Type().String(), "TMessageType") {
+					continue
+				}
+				if (op == token.EQL && k != oneway) || (op == token.NEQ && k == oneway) {
+					return false
+				}
+			}
+			return true
+		}
+		reach := existsPathEdges(dec, nil, func(in ssa.Instruction) bool { return in == ssa.Instruction(st) }, nil, edgeOK) != nil
+		c.Check(rule, funcKey(dec)+":oneway-is-a-request", st.Pos(), reach,
+			"for message type ONEWAY the frame's direction becomes EventRequest",
+			"decodeMessage marks only CALL as a request: a thrift ONEWAY message is decoded as a response, finds no stream of that id on a listener and is never forwarded")
+	}
+	if n == 0 {
+		c.Fail(rule, funcKey(dec)+":oneway-is-a-request", dec.Pos(), "no store of EventRequest into Frame.Direction found")
+	}
+	gst := c.M(pkg, "Frame", "GetStreamType")
+	if gst == nil {
+		c.Unresolved(rule, "dubbothrift.Frame.GetStreamType")
+		return
+	}
+	ow := false
+	owVal, okOW := pkgConstOf(gst, "mosn.io/api", "RequestOneWay")
+	for _, in := range instrsWhere(gst, isReturn) {
+		if k, isK := constInt(in.(*ssa.Return).Results[0]); isK && okOW && k == owVal {
+			ow = true
+		}
+	}
+	c.Check(rule, funcKey(gst)+":oneway-stream-type", gst.Pos(), ow,
+		"GetStreamType can answer RequestOneWay",
+		"a dubbothrift frame never reports the oneway stream type: a ONEWAY call would be forwarded as an ordinary request and the proxy would wait for a reply that never comes")
+}
+
+// ---------------------------------------------------------------------------------------------------------------------
+// C08.B12 (S27): a client (upstream) stream connection has no server callbacks; every use of sc.serverCallbacks in the
+// connection's frame handling lies behind a non-nil test, so a request-type frame from an upstream peer cannot panic.
+func c08ServerCallbacksOnlyWhereTheyExist(c *Ctx) {
+	const rule = "C08.B12"
+	c.Rule(rule, "the xprotocol connection uses its server callbacks only where they are known to exist", 2)
+	pkg := "pkg/stream/xprotocol"
+	n := 0
+	ord := ordCounter{}
+	for _, name := range []string{"handleRequest", "handleError", "handleFrame", "handleResponse"} {
+		fn := c.M(pkg, "streamConn", name)
+		if fn == nil {
+			continue
+		}
+		for _, cs := range callsIn(fn, false, func(cc *ssa.CallCommon) bool {
+			if !cc.IsInvoke() {
+				return false
+			}
+			_, f, _, ok := loadedField(cc.Value)
+			return ok && f == "serverCallbacks"
+		}) {
+			n++
+			guarded := false
+			check := func(gs []Guard) {
+				for _, g := range gs {
+					b, ok := g.Cond.(*ssa.BinOp)
+					if !ok {
+						continue
+					}
+					for _, pair := range [][2]ssa.Value{{b.X, b.Y}, {b.Y, b.X}} {
+						if _, f, _, okf := loadedField(pair[0]); okf && f == "serverCallbacks" && isNilConst(pair[1]) {
+							if (b.Op == token.NEQ && g.True) || (b.Op == token.EQL && !g.True) {
+								guarded = true
+							}
+						}
+					}
+				}
+			}
+			check(guardsAt(cs.Instr.Block()))
+			c.Check(rule, ord.next(fn, "server-callbacks-exist"), cs.Instr.Pos(), guarded,
+				"the call lies behind `sc.serverCallbacks != nil`",
+				"sc.serverCallbacks is used without a nil test: on an upstream connection (no server callbacks) a request-type frame sent by the peer dereferences nil - recovered by the read loop in the default mode, swallowed by the worker pool in netpoll mode, where the connection is then never read again")
+		}
+	}
+	if n == 0 {
+		c.Fail(rule, pkg+":server-callbacks-exist", token.NoPos, "no use of streamConn.serverCallbacks found")
+	}
+}
+
+// C08.B13 (S28): a tars length prefix that no amount of further data can turn into a package (TarsRequest answers
+// PACKAGE_ERROR) fails the connection: under status == PACKAGE_ERROR no (nil, nil) return of Decode is reachable.
+func c08TarsImpossibleLengthFails(c *Ctx) {
+	const rule = "C08.B13"
+	c.Rule(rule, "an impossible tars length prefix is a decode error, not a wait for more data", 1)
+	fn := c.M("pkg/protocol/xprotocol/tars", "tarsProtocol", "Decode")
+	if fn == nil {
+		c.Unresolved(rule, "tarsProtocol.Decode")
+		return
+	}
+	reqs := callsIn(fn, false, func(cc *ssa.CallCommon) bool { return strings.HasSuffix(calleeName(cc), "tars/protocol.TarsRequest") })
+	if len(reqs) != 1 {
+		c.Fail(rule, funcKey(fn)+":package-error-fails", fn.Pos(), "TarsRequest call not found")
+		return
+	}
+	call := reqs[0].Instr.(*ssa.Call)
+	const pkgErr = 2
+	edgeOK := func(from, to *ssa.BasicBlock) bool {
+		ifi, isIf := from.Instrs[len(from.Instrs)-1].(*ssa.If)
+		if !isIf || len(from.Succs) != 2 {
+			return true
+		}
+		for _, g := range normGuard(Guard{Cond: ifi.Cond, True: to == from.Succs[0], If: ifi}) {
+			x, op, k, okc := cmpConst(g)
+			if !okc {
+				continue
+			}
+			ex, isEx := x.(*ssa.Extract)
+			if !isEx || ex.Tuple != ssa.Value(call) || ex.Index != 1 {
+				continue
+			}
+			if (op == token.EQL && k != pkgErr) || (op == token.NEQ && k == pkgErr) {
+				return false
+			}
+		}
+		return true
+	}
+	waits := existsPathEdges(fn, call, func(in ssa.Instruction) bool {
+		ret, ok := in.(*ssa.Return)
+		if !ok {
+			return false
+		}
+		return isNilConst(unspill(ret, 0)) && isNilConst(unspill(ret, 1))
+	}, nil, edgeOK)
+	c.Check(rule, funcKey(fn)+":package-error-fails", call.Pos(), waits == nil,
+		"under PACKAGE_ERROR every return of Decode carries an error",
+		"tarsProtocol.Decode answers need-more-data (nil, nil) for a length prefix TarsRequest rejects (below the prefix size or above the maximum): the prefix stays at the head of the buffer, the connection never fails and the bytes the peer sends pile up for ever")
+}
+
+// ---------------------------------------------------------------------------------------------------------------------
+// C11.O18: poolBinding.Shutdown notifies its clients (OnGoAway, which takes the pool lock to remove the client) without
+// holding the pool lock itself.
+func c11PoolShutdownOutsideItsLock(c *Ctx) {
+	const rule = "C11.O18"
+	c.Rule(rule, "the connection pools' Shutdown notifies the clients without holding the lock the notification takes", 1)
+	pkg := "pkg/stream/xprotocol"
+	n := 0
+	for _, pool := range []string{"poolBinding", "poolPingPong", "poolMultiplex"} {
+		fn := c.M(pkg, pool, "Shutdown")
+		if fn == nil {
+			continue
+		}
+		for _, cs := range callsIn(fn, false, calledAs("OnGoAway")) {
+			callee := cs.Instr.Common().StaticCallee()
+			if callee == nil {
+				continue
+			}
+			// does the notification take clientMux (directly or in a package callee)?
+			takes := false
+			for f := range staticReach([]*ssa.Function{callee}, pkg) {
+				for _, l := range callsIn(f, false, calledAs("Lock")) {
+					if _, fld, _, ok := fieldAddrInfo(l.Instr.Common().Args[0]); ok && fld == "clientMux" {
+						takes = true
+					}
+				}
+			}
+			if !takes {
+				continue
+			}
+			n++
+			held := mayHold(cs.Instr, "clientMux")
+			c.Check(rule, funcKey(fn)+":goaway-outside-pool-lock", cs.Instr.Pos(), held == nil,
+				"OnGoAway is called with clientMux released",
+				"Shutdown calls OnGoAway while it holds clientMux, and OnGoAway removes the client from the pool under the same mutex: the goroutine locks the non-reentrant mutex twice, Shutdown never returns and every later NewStream of the pool blocks - the graceful shutdown of the connection pools hangs")
+		}
+	}
+	if n == 0 {
+		c.Pass(rule, pkg+":goaway-outside-pool-lock", token.NoPos, "no Shutdown notifies a client through a function that takes the pool lock")
+	}
+}
+
+// C11.O19 (S65, known finding): the drain wait of the graceful shutdown counts the requests in flight; the counter it
+// reads must exist whatever the metrics configuration says. Today it is the store object
+// downstream{listener}.request_active obtained through metrics.NewListenerStats, which stats_matcher can replace by a no-op.
+func c11DrainCounterNotExcludable(c *Ctx) {
+	const rule = "C11.O19"
+	c.Rule(rule, "the shutdown drain reads a request counter that the metrics exclusion configuration cannot switch off", 1)
+	fn := c.M("pkg/server", "activeListener", "activeStreamSize")
+	if fn == nil {
+		c.Unresolved(rule, "activeListener.activeStreamSize")
+		return
+	}
+	n := 0
+	for _, cs := range callsIn(fn, false, func(cc *ssa.CallCommon) bool { return cc.IsInvoke() && cc.Method.Name() == "Count" }) {
+		n++
+		excludable := false
+		if ctr, ok := cs.Instr.Common().Value.(*ssa.Call); ok && ctr.Common().IsInvoke() && ctr.Common().Method.Name() == "Counter" {
+			if mk, ok := ctr.Common().Value.(*ssa.Call); ok {
+				if callee := mk.Common().StaticCallee(); callee != nil && strings.HasSuffix(callee.Pkg.Pkg.Path(), "pkg/metrics") {
+					// can that constructor hand out the no-op metrics?
+					for f := range staticReach([]*ssa.Function{callee}, "pkg/metrics") {
+						for _, in := range instrsWhere(f, isReturn) {
+							ret := in.(*ssa.Return)
+							for ri := range ret.Results {
+								r := unspill(ret, ri)
+								if strings.Contains(stripIface(r).Type().String(), "NilMetrics") {
+									excludable = true
+								}
+								if call, isC := r.(*ssa.Call); isC && strings.Contains(calleeName(call.Common()), "NewNilMetrics") {
+									excludable = true
+								}
+								if ex, isE := r.(*ssa.Extract); isE {
+									if call, isC := ex.Tuple.(*ssa.Call); isC && strings.Contains(calleeName(call.Common()), "NewNilMetrics") {
+										excludable = true
+									}
+								}
+							}
+						}
+					}
+				}
+			}
+		}
+		c.Check(rule, funcKey(fn)+":drain-counter-always-counts", cs.Instr.Pos(), !excludable,
+			"the counter the drain reads is not obtained from a constructor that can hand out the no-op metrics",
+			"the drain wait reads downstream{listener}.request_active through metrics.NewListenerStats(..).Counter(..): with stats_matcher reject_all, exclusion_labels [listener] or exclusion_keys [request_active] that object is a NilCounter on both the counting and the reading side, Count() is always 0, the drain returns at once and the requests in flight are cut by the shutdown")
+	}
+	if n == 0 {
+		c.Fail(rule, funcKey(fn)+":drain-counter-always-counts", fn.Pos(), "activeStreamSize reads no counter")
+	}
+}
+
+// ---------------------------------------------------------------------------------------------------------------------
+// C20.R6 (S53, native dump): MOSNConfig.RawStaticResources is raw xDS JSON whose transport sockets can hold inline keys;
+// the redacted MOSN config takes it through the raw redactor.
+func c20RawStaticResourcesRedacted(c *Ctx) {
+	const rule = "C20.R6"
+	fn := c.F("pkg/configmanager", "redactedMosnConfig")
+	if fn == nil {
+		c.Unresolved(rule, "configmanager.redactedMosnConfig")
+		return
+	}
+	ok := false
+	var pos token.Pos = fn.Pos()
+	for _, st := range storesToField(fn, "MOSNConfig", "RawStaticResources", false) {
+		pos = st.Pos()
+		if call, isC := st.Val.(*ssa.Call); isC {
+			if callee := call.Common().StaticCallee(); callee != nil && strings.Contains(strings.ToLower(callee.Name()), "redact") {
+				ok = true
+			}
+		}
+	}
+	c.Check(rule, funcKey(fn)+":static-resources-redacted", pos, ok,
+		"RawStaticResources of the redacted config is the result of a redactor",
+		"redactedMosnConfig leaves RawStaticResources as it is: the raw xDS static_resources of the bootstrap config is printed by the config dump with the inline private keys of its transport sockets")
+}
+
+// C20.R7 (S53, istio /config_dump, known finding): the envoy style config dump marshals the recorded xDS listeners and
+// clusters; a dump that redacts needs a placeholder, so some function reachable from conv.EnvoyConfigDump must mention one.
+func c20EnvoyDumpHasARedactor(c *Ctx) {
+	const rule = "C20.R7"
+	c.Rule(rule, "the envoy style /config_dump passes the recorded xDS resources through a redactor (necessary: a placeholder is reachable)", 1)
+	pkg := "istio/istio1106/xds/conv"
+	fn := c.F(pkg, "EnvoyConfigDump")
+	if fn == nil {
+		c.Unresolved(rule, "conv.EnvoyConfigDump")
+		return
+	}
+	has := false
+	for f := range staticReach([]*ssa.Function{fn}, pkg) {
+		forEachInstr(f, true, func(_ *ssa.Function, in ssa.Instruction) {
+			for _, op := range in.Operands(nil) {
+				if *op == nil {
+					continue
+				}
+				if s, ok := constStringVal(*op); ok && strings.Contains(strings.ToLower(s), "redacted") {
+					has = true
+				}
+			}
+		})
+	}
+	c.Check(rule, funcKey(fn)+":xds-dump-redacted", fn.Pos(), has,
+		"a redaction placeholder is reachable from EnvoyConfigDump",
+		"conv.EnvoyConfigDump marshals the recorded xDS listeners and clusters with a plain jsonpb marshaller and no function reachable from it mentions a redaction placeholder: a transport socket that carries its key as inline_string / inline_bytes (a hand written static_resources, an xDS server that does not use SDS) is printed verbatim by the admin endpoint /config_dump")
 }
